@@ -337,6 +337,10 @@ class Derivation(Constraint):
                 continue
             num_levels = len(f.levels)
             get_trial_size = lambda x: trial_size if x < block.grid_variables() else len(block.decode_variable(x+1)[0].levels)
+            # An argument that has a level earlier than the latest-starting argument is read that many trials later:
+            default_start = window.start - window.start_delta
+            get_arg_start = lambda x: 0 if x < block.grid_variables() else block.decode_variable(x+1)[0].first_level.window.start
+            get_arg_delay = lambda x: (default_start - (window.width - 1) - get_arg_start(x)) * sustain_count
 
             # Only keep clauses where all `BeforeStarts` apply and all indices are in range:
             ands = []
@@ -349,7 +353,7 @@ class Derivation(Constraint):
                             ok = False
                             break
                     else:
-                        new_x = x + ((t + delta) * window.stride * get_trial_size(x) + 1)
+                        new_x = x + (((t + delta) * window.stride + get_arg_delay(x)) * get_trial_size(x) + 1)
                         if new_x <= 0:
                             ok = False
                             break
